@@ -158,7 +158,12 @@ PROPS = {
                     # step outputs are logged (config.LoggedOutputConfigs) through a sink that takes 40 ms per such line: a pure
                     # delay inside the logger, while other steps report their own stage changes
                     S_engine(M.both(M.mon_c02_engine, M.no_eval_failure("C02", "a stage input was evaluated before the data it refers to was produced")),
-                             extra=["-slowlog", "40"], name="engine-slowlog", n=(40, 300), seed_off=53)],
+                             extra=["-slowlog", "40"], name="engine-slowlog", n=(40, 300), seed_off=53),
+                    # the recorded run is the SECOND run of a prepared workflow (the first one had another input); steps with
+                    # deploy-time expressions over the input: every value (stage inputs and the deployment configuration) has to
+                    # come from this run's input and producers, none from the earlier run
+                    S_engine(M.both(M.mon_c02_engine, M.mon_c02_deploy, M.no_eval_failure("C02", "a stage input was evaluated before the data it refers to was produced")),
+                             extra=["-second"], name="engine-second-run", n=(60, 600), seed_off=59)],
         "rule": LOOP_RULE + " - every provided stage input is compared with the model; " + ENGINE_RULE +
                 " - every plugin execution's input is recomputed from the logged producer outputs",
     },
